@@ -163,7 +163,12 @@ def contains(a, b) -> Any:
             return b[1] in a[1]
         if kb == "num" and isinstance(b[1], int):
             return str(b[1]) in a[1]
-        return UNSPEC  # stringification of floats, bools and compound needles is not settled
+        if kb == "num" and isinstance(b[1], float) and b[1] == b[1] and abs(b[1]) < 1e15 and (b[1] == 0 or abs(b[1]) >= 1e-4):
+            # the needle is the number as a template prints it ({{ 1.5 }} -> 1.5); exponent notation and nan are left open
+            return repr(b[1]) in a[1]
+        if kb == "bool":
+            return "true" in a[1]  # (false never gets here) - the needle is the text a template prints for it
+        return UNSPEC  # stringification of compound needles is not settled
     if ka in ("list", "range"):
         res = False
         for x in a[1]:
